@@ -120,14 +120,23 @@ def check_program(ctx, P, tags, via, witness, wires=None):
     for i in range(n):
         d = G.nodes[i]
         o = ops[i]
-        if d.get("name") != o["op"] or tuple(d.get("modes", ())) != tuple(o["modes"]):
-            return ctx.violation("node-attributes", "node %d carries %r, operation is %r on %r" % (i, (d.get("name"), d.get("modes")), o["op"], o["modes"]), witness)
+        nm = d.get("modes", ())
+        if d.get("name") != o["op"] or not isinstance(nm, (tuple, list)) or tuple(nm) != tuple(o["modes"]):
+            return ctx.violation("node-attributes", "node %d carries %r, operation is %r on %r" % (i, (d.get("name"), nm), o["op"], o["modes"]), witness)
         a = d.get("args")
         k = d.get("kwargs")
-        if list(a if a is not None else []) != list(o.get("args", [])) or dict(k if k is not None else {}) != dict(o.get("kwargs", {})):
+        if not isinstance(a, (list, tuple, type(None))) or not isinstance(k, (dict, type(None))):
+            return ctx.violation("node-arguments", "node %d carries args %r / kwargs %r, the operation has %r / %r" % (i, a, k, o.get("args"), o.get("kwargs")), witness)
+        try:
+            differs = list(a if a is not None else []) != list(o.get("args", [])) or dict(k if k is not None else {}) != dict(o.get("kwargs", {}))
+        except Exception:  # comparison of arrays etc.
+            differs = True
+        if differs:
             same = len(a or []) == len(o.get("args", [])) and all(x is y or _eq(x, y) for x, y in zip(a or [], o.get("args", [])))
+            ko = o.get("kwargs", {}) or {}
+            same = same and set(k or {}) == set(ko) and all((k or {})[x] is ko[x] or _eq((k or {})[x], ko[x]) for x in ko)
             if not same:
-                return ctx.violation("node-arguments", "node %d arguments %r differ from the operation's %r" % (i, a, o.get("args")), witness)
+                return ctx.violation("node-arguments", "node %d arguments %r / %r differ from the operation's %r / %r" % (i, a, k, o.get("args"), o.get("kwargs")), witness)
     for (i, j) in G.edges():
         if not i < j:
             return ctx.violation("edge-direction", "edge (%d, %d) does not point from an earlier to a later operation" % (i, j), witness)
